@@ -296,11 +296,18 @@ def heralded_child(draw, max_k=5, max_herald_photons=1, depth=1, lossy=True):
 def addition_tree(draw, min_n=2, max_n=5, max_adds=4, max_herald_photons=1, lossy=True):
     """Parent with several successive additions, most of them heralded, with
     primitives interleaved (the shape C02/C08 failures need)."""
+    import copy
     n = draw(st.integers(min_n, max_n))
     ops = []
     for _ in range(draw(st.integers(2, max_adds))):
         ops += draw(st.lists(primitive(n, lossy), max_size=2))
-        if draw(st.integers(0, 3)) > 0:
+        earlier = [op for op in ops if op[0] == "add"]
+        if earlier and draw(st.integers(0, 4)) == 0:
+            # the same building block once more, somewhere else (the builder then adds the same circuit object again)
+            prev = draw(st.sampled_from(earlier))
+            vis = prev[1]["n"] - count_heralds(prev[1])
+            ops.append(["add", copy.deepcopy(prev[1]), draw(st.integers(0, n - vis)), prev[3], prev[4]])
+        elif draw(st.integers(0, 3)) > 0:
             child = draw(heralded_child(max_k=min(5, n + 2),
                                         max_herald_photons=max_herald_photons, lossy=lossy))
             vis = child["n"] - count_heralds(child)
